@@ -192,10 +192,30 @@ def run_batch(pid, batch, seed, tier):
     os.makedirs(env["VERIF_TMP"], exist_ok=True)
     cmd = [os.path.join(BIN, batch["bin"])] + [str(a) for a in batch["args"]]
     t0 = time.time()
-    p = subprocess.run(cmd, env=dict(os.environ, **env), stdout=subprocess.PIPE, stderr=subprocess.PIPE, timeout=batch.get("timeout", 3000))
-    if p.returncode != 0:
+    try:
+        p = subprocess.run(cmd, env=dict(os.environ, **env), stdout=subprocess.PIPE, stderr=subprocess.PIPE,
+                           timeout=batch.get("timeout", 3000 if tier == "thorough" else 900))
+    except subprocess.TimeoutExpired as e:
+        # the batch never ended (a quick batch takes seconds): the code under test hung the harness
+        class P:
+            pass
+        p = P()
+        p.returncode = -9
+        p.stdout = e.stdout or b""
+        p.stderr = (e.stderr or b"") + b"\n(the batch did not end within its time limit and was killed)"
+    if p.returncode < 0 or p.returncode in (101, 134):
+        # the code under test took the whole harness process down (abort: a panic while unwinding,
+        # a panic in a destructor, an allocation failure) or made the harness's own thread panic:
+        # every controlled and pristine predicate includes "the process survives".  The cases that
+        # were completed before are judged as usual; the crash itself is reported by the caller.
+        done = [l for l in p.stdout.decode("utf-8", "replace").split("\n") if l and not l.startswith("#")]
+        CRASHES.append({"batch": {"bin": batch["bin"], "args": [str(a) for a in batch["args"]]}, "rc": p.returncode,
+                        "completed_cases": len(done), "stderr_tail": p.stderr.decode("utf-8", "replace")[-3000:]})
+        cases = ("\n".join(done[:-1] if done and not p.stdout.endswith(b"\n") else done) + "\n").encode()
+    elif p.returncode != 0:
         die("harness %s exited %d: %s" % (cmd, p.returncode, p.stderr.decode("utf-8", "replace")[-2000:]))
-    cases = p.stdout
+    else:
+        cases = p.stdout
     d = subprocess.run(["bash", "-c", "ulimit -s unlimited 2>/dev/null; exec " + DRIVER], input=cases, stdout=subprocess.PIPE, stderr=subprocess.PIPE, timeout=3000)
     if d.returncode != 0:
         die("driver exited %d: %s" % (d.returncode, d.stderr.decode("utf-8", "replace")[-2000:]))
@@ -219,6 +239,7 @@ def load_known():
 
 
 CURRENT_CFG = {}
+CRASHES = []
 
 
 def matches_finding(f, res, case_line):
@@ -248,6 +269,19 @@ def matches_finding(f, res, case_line):
             if res.get(k) != v:
                 return False
     return True
+
+
+def write_evidence_min(pid, tier, cov, what, t0):
+    """evidence of a run that ended before any case could be generated"""
+    cov = dict(cov)
+    cov.update({"evaluations": 0, "distinct_nontrivial": 0, "rule": props.PROPS[pid].get("rule", ""), "samples": ["(none: %s)" % what],
+                "proof_ok": False, "exhaustive": False, "obligations": max(cov.get("obligations", 0), 1), "discharged": 0})
+    evidence = {"property_id": pid, "tier": tier, "seed": int(os.environ.get("VERIF_SEED", "20260927")), "level": "proof", "coverage": cov,
+                "assumptions": props.PROPS[pid].get("assumptions", []) + props.COMMON_ASSUMPTIONS, "wall_s": round(time.time() - t0, 2), "violations": 1}
+    tmp = os.path.join(ROOT, "evidence", pid + ".json.tmp")
+    with open(tmp, "w") as f:
+        json.dump(evidence, f, indent=1)
+    os.replace(tmp, os.path.join(ROOT, "evidence", pid + ".json"))
 
 
 def main():
@@ -294,8 +328,17 @@ def main():
         proof_ok, pdetail = proof_step(pid, cov)
         ok, log = build_harness()
         if not ok:
-            # the implementation no longer builds with the harness: not a property verdict
-            die("cargo build of the harness against /repo failed:\n" + log)
+            # the correspondence can no longer be established at all: /repo (or its generated copy,
+            # when it uses a std API the controllable runtime does not provide) does not build with
+            # the harness.  The property is no longer shown to hold: reported as such, no failing input.
+            path = os.path.join(BUILD, "replay", "%s-build.txt" % pid)
+            with open(path, "w") as f:
+                f.write("# property %s — the correspondence harness no longer builds against /repo's working tree\n"
+                        "# correspondence that no longer checks: every generator batch of %s (cargo build of /verif/harness, which compiles /repo\n"
+                        "# and the copy of /repo/src that tools/mkcopy.py regenerates over verif_rt)\n# seed=%d tier=%s\n%s\n" % (pid, pid, seed, tier, log))
+            write_evidence_min(pid, tier, cov, "harness build failed", t0)
+            print("VIOLATION property=%s replay=%s no-failing-input-found" % (pid, os.path.relpath(path, ROOT)))
+            sys.exit(1)
 
     replay_id = None
     if replay:
@@ -409,6 +452,16 @@ def main():
             violations.append((write_replay("%s-%d.case" % (pid, n_new), case_line, r, "property predicate false on the implementation's output"), ""))
         n_new += 1
 
+    # 1b. the code under test took the harness process down in the middle of a batch
+    for k, c in enumerate(CRASHES[:3]):
+        path = os.path.join(BUILD, "replay", "%s-crash-%d.txt" % (pid, k))
+        with open(path, "w") as f:
+            f.write("# property %s — the harness process was taken down (exit status %d) while running this batch against /repo's working tree;\n"
+                    "# %d cases of the batch had been completed, the next one is the failing input\n" % (pid, c["rc"], c["completed_cases"]))
+            f.write("# seed=%d tier=%s\n# rerun: %s case_id=\n" % (seed, tier, json.dumps(c["batch"])))
+            f.write("# stderr (tail):\n" + "\n".join("#   " + l for l in c["stderr_tail"].split("\n")[-40:]) + "\n")
+        violations.append((os.path.relpath(path, ROOT), ""))
+
     # 2./3. a proof obligation no longer checks, or model and implementation disagree on the
     #       property's projection: search for a concrete failing input with the thorough generators
     #       (predicate evaluated on the implementation), report it if found, else report what broke
@@ -459,6 +512,7 @@ def main():
         "partial_clauses": cfg.get("partial", []),
         "proof_ok": proof_ok,
         "exhaustive": False,
+        "harness_crashes": [{k: v for k, v in c.items() if k != "stderr_tail"} for c in CRASHES],
     })
     if not proof_ok:
         cov["proof_failure"] = {k: (v if k != "log" else v[-1500:]) for k, v in pdetail.items()}
